@@ -1,6 +1,7 @@
 (* C09 - TIFA's initialization / unused-variable diagnoses match the execution paths: EXACT on the branch subset (any
-   nesting, any size); SOUND for while loops (any nesting, any number of iterations).  for loops and function calls:
-   covered by the correspondence run only (for over an empty iterable is a known finding). *)
+   nesting, any size); SOUND for while loops (any nesting, any number of iterations); for a for loop SOUND when the body runs
+   at least once and REFUTED (witness) when the iterable is empty - the recorded finding.  Function calls: covered by the
+   correspondence run only. *)
 
 
 From Coq Require Import List Bool Arith.
@@ -43,3 +44,27 @@ Theorem C09_while_no_missed_uninitialised_read :
   exists j, In j (snd (t_block b1 aempty)) /\ site j = site i.
 Proof. exact while_no_missed_uninitialised_read. Qed.
 Print Assumptions C09_while_no_missed_uninitialised_read.
+
+(* for loops.  TIFA analyses  for x in f(rs): B  as  x = f(rs); B  (model/C09_Tifa.v: for_analysed; tied to real TIFA by the
+   correspondence run); an execution reads the iterable once and runs  x = item; B  k times (for_run). *)
+From Pedal Require Import proof.C09_For.
+
+Theorem C09_for_no_missed_read_when_the_body_runs :
+  forall pre l x rs body rest k,
+  forall i, In i (snd (s_block (bapp pre (bapp (for_run l x rs body (S k)) rest)) [cempty])) ->
+  exists j, In j (snd (t_block (bapp pre (bapp (for_analysed l x rs body) rest)) aempty)) /\ site j = site i.
+Proof. exact for_no_missed_read_when_the_body_runs. Qed.
+Print Assumptions C09_for_no_missed_read_when_the_body_runs.
+
+Theorem C09_for_one_iteration_is_what_tifa_analyses :
+  forall l x rs body St, s_block (for_run l x rs body 1) St = s_block (for_analysed l x rs body) St.
+Proof. exact for_one_iteration_is_what_tifa_analyses. Qed.
+Print Assumptions C09_for_one_iteration_is_what_tifa_analyses.
+
+(* the full statement (no missed read for ANY number of iterations) is false of the faithful model: zero iterations *)
+Theorem C09_for_zero_iterations_refuted :
+  exists l x rs body rest,
+    snd (t_block (bapp (for_analysed l x rs body) rest) aempty) = [] /\
+    In (3, 0, InitProblem) (snd (s_block (bapp (for_run l x rs body 0) rest) [cempty])).
+Proof. exact for_zero_iterations_refuted. Qed.
+Print Assumptions C09_for_zero_iterations_refuted.
